@@ -206,10 +206,16 @@ class Rule(
 
     def assert_applies(self, evaluable: EvaluableArchitecture) -> None:
         self._assert_anything_only_used_with_should_not()
-        self._configuration = self._convert_aliases(self._configuration)
-        self._assert_required_configuration_present()
 
-        matcher = self._prepare_rule_matcher()
+        # the alias is rewritten for this evaluation only; the rule object keeps the configuration it was given
+        configuration = self._configuration
+        self._configuration = self._convert_aliases(configuration)
+        try:
+            self._assert_required_configuration_present()
+            matcher = self._prepare_rule_matcher()
+        finally:
+            self._configuration = configuration
+
         matcher.match(evaluable)
 
     def _prepare_rule_matcher(self) -> RuleMatcher:
